@@ -9,7 +9,10 @@ FUNCTIONS = [WT + ":InventoryWorkingTree.remove"]
 STUBS = ["the working tree is an instance of the real InventoryWorkingTree class created without a control directory; "
          "abspath / relpath / walkdirs / is_versioned / path2id / iter_changes / apply_inventory_delta and the control "
          "directory's _available_backup_name are stubs over a table of files; osutils (rename / lexists / isdir / "
-         "delete_any / rmtree; Rust or I/O) is a recording stand-in; is_inside_any is the validated model of C20"]
+         "delete_any / rmtree; Rust or I/O) is a recording stand-in that sees the tree's files only under the tree's absolute "
+         "root (a relative path is resolved against the process's working directory, which is elsewhere) and whose rename "
+         "replaces an existing target, as POSIX does; is_inside_any is the validated model of C20; available_backup_name "
+         "(Rust) is a python model compared with the compiled function before each run"]
 ASSUMPTIONS = ["the named paths are files in the tree root with SYMBOLIC names (directories and their recursion are outside)",
                "iter_changes reports, for each named file, whether it is in the basis tree, whether its content changed and "
                "whether it still exists (its contract)",
@@ -20,8 +23,22 @@ OUTSIDE = ["directories (non-empty directory handling, nested content)", "revert
            "which need a tree transform over real trees", "more files than the bound"]
 
 
+def m_available_backup_name(base, exists):
+    """model of osutils.available_backup_name (Rust): the first of base.~1~, base.~2~, ... that does not exist"""
+    counter = 1
+    name = base + ".~" + str(counter) + "~"
+    while exists(name):
+        counter += 1
+        name = base + ".~" + str(counter) + "~"
+    return name
+
+
 def setup(ls):
     _validate_inside()
+    from breezy import osutils
+    for taken in ([], ["f.~1~"], ["f.~1~", "f.~2~"], ["f.~2~"], ["g.~1~"]):
+        if osutils.available_backup_name("f", taken.__contains__) != m_available_backup_name("f", taken.__contains__):
+            raise RuntimeError("available_backup_name model differs with %r taken" % (taken,))
 
 
 def ob_remove(cx):
@@ -34,16 +51,29 @@ def ob_remove(cx):
         for f in files:
             cx.assume(f["name"] != name)
         state = cx.pick("state%d" % i, ["unchanged", "modified", "added", "unknown", "missing"])
-        files.append(dict(i=i, name=name, state=state))
+        # an earlier backup of a file of this name (an unknown file NAME.~1~) may already be in the working directory
+        taken = bool(cx.choose("backup_taken%d" % i, 0, 1))
+        files.append(dict(i=i, name=name, state=state, backup_taken=taken))
     keep = bool(cx.choose("keep_files", 0, 1))
     force = bool(cx.choose("force", 0, 1))
     log = []
     disk = [f for f in files if f["state"] != "missing"]          # files present in the working directory
+    old_backups = [dict(i=-1 - f["i"], name=f["name"] + ".~1~", state="old-backup") for f in files if f["backup_taken"]]
+    disk += old_backups
+    ROOT = "/t/"
+
+    def rel_lookup(path):
+        """tree-relative name -> entry"""
+        for f in files + old_backups:
+            if len(f["name"]) == len(path) and T(f["name"] == path):
+                return f
+        return None
 
     def lookup(path):
-        for f in files:
-            if T(f["name"] == path):
-                return f
+        """path as the operating system sees it: only absolute paths below the tree root reach the tree's files; a relative
+        path is resolved against the process's working directory, which is not the tree root in general"""
+        if len(path) > len(ROOT) and T(path[:len(ROOT)] == ROOT):
+            return rel_lookup(path[len(ROOT):])
         return None
 
     class Change:
@@ -78,8 +108,14 @@ def ob_remove(cx):
         @staticmethod
         def rename(a, b):
             f = lookup(a)
+            over = lookup(b)
+            if over is not None and over in disk:
+                disk.remove(over)                  # POSIX rename replaces the target silently
+                log.append(("overwritten", over["i"]))
             disk.remove(f)
             log.append(("backup", f["i"], b))
+
+        available_backup_name = staticmethod(m_available_backup_name)
 
         @staticmethod
         def kind_marker(k):
@@ -93,7 +129,8 @@ def ob_remove(cx):
     class CD:
         @staticmethod
         def _available_backup_name(base):
-            return base + ".~1~"
+            # the real one asks the control directory's root transport, i.e. resolves names against the TREE ROOT
+            return m_available_backup_name(base, lambda n: rel_lookup(n) is not None and rel_lookup(n) in disk)
 
     class Tree(W.InventoryWorkingTree):
         def __init__(self):
@@ -104,21 +141,23 @@ def ob_remove(cx):
             return contextlib.nullcontext()
 
         def abspath(self, p):
-            return p
+            return ROOT + p
 
         def relpath(self, p):
-            return p
+            if not (len(p) >= len(ROOT) and T(p[:len(ROOT)] == ROOT)):
+                raise AssertionError("relpath of a path outside the tree")
+            return p[len(ROOT):]
 
         def walkdirs(self, prefix=""):
             return iter(())
 
         def is_versioned(self, p):
-            f = lookup(p)
-            return f is not None and f["state"] not in ("unknown",)
+            f = rel_lookup(p)
+            return f is not None and f["state"] not in ("unknown", "old-backup")
 
         def path2id(self, p):
-            f = lookup(p)
-            if f is None or f["state"] == "unknown":
+            f = rel_lookup(p)
+            if f is None or f["state"] in ("unknown", "old-backup"):
                 return None
             return b"id-%d" % f["i"]
 
@@ -160,8 +199,16 @@ def ob_remove(cx):
             cx.require([e[0] for e in ops] == ["backup"],
                        "file %d is %s and deletion was not forced: its content must be kept in a backup, got %r" %
                        (f["i"], f["state"], ops))
-            cx.require(T(ops[0][2] == f["name"] + ".~1~"), "backup written under an unexpected name")
+            want_name = ROOT + f["name"] + (".~2~" if f["backup_taken"] else ".~1~")
+            cx.require(len(ops[0][2]) == len(want_name) and T(ops[0][2] == want_name), "backup written under an unexpected name")
             cx.cover("backed_up")
+            if f["backup_taken"]:
+                cx.cover("earlier_backup_kept")
+    lost = [e for e in log if e[0] == "overwritten"]
+    cx.require(not lost, "a backup was written over an existing file of the working directory (an earlier backup holding "
+               "content that exists nowhere else)")
+    for b in old_backups:
+        cx.require(b in disk, "an unrelated unknown file disappeared from the working directory")
     if keep:
         cx.cover("kept")
     cx.observe("log", [(e[0], e[1]) for e in log])
@@ -171,6 +218,7 @@ def obligations(tier):
     q = tier == "quick"
     p = dict(nfiles=2 if q else 3, lname=2)
     return [Ob("remove", ob_remove, [(WT, dict(symdict=True))], p, 900 if q else 7200, 2 if q else 1,
-               ["deleted", "backed_up", "kept"], setup=setup,
+               ["deleted", "backed_up", "kept", "earlier_backup_kept"], setup=setup,
                bounds="<= %(nfiles)d files with symbolic names of <= %(lname)d chars, each unchanged / modified / newly added / "
-                      "unknown / versioned but missing; keep or delete, forced or not" % p)]
+                      "unknown / versioned but missing, each with or without an earlier backup NAME.~1~ in the working directory; "
+                      "keep or delete, forced or not" % p)]
